@@ -6,6 +6,7 @@ cd /verif/sim
 mkdir -p /verif/bin
 go1.26.8 build -o /verif/bin/gsinstr ./cmd/gsinstr
 go1.26.8 build -o /verif/bin/gscheck ./cmd/gscheck
+go1.26.8 build -o /verif/bin/gsworld ./cmd/gsworld
 # warm the cache: std for the test binary (plain and -race)
 S=$(mktemp -d /dev/shm/gsim-setup-XXXX 2>/dev/null || mktemp -d)
 trap 'rm -rf "$S"' EXIT
@@ -13,4 +14,8 @@ trap 'rm -rf "$S"' EXIT
 printf 'module gsim\n\ngo 1.26\n\nrequire github.com/crillab/gophersat v0.0.0\n\nreplace github.com/crillab/gophersat => %s\n' "$S/gophersat" > "$S/engine.mod"
 : > "$S/engine.sum"
 go1.26.8 test -c -tags verifsim -modfile="$S/engine.mod" -o "$S/engine.test" ./engine
+# race-detector runtime for Engine R
+printf 'module gsim\n\ngo 1.26\n\nrequire github.com/crillab/gophersat v0.0.0\n\nreplace github.com/crillab/gophersat => /repo\n' > "$S/racer.mod"
+: > "$S/racer.sum"
+CGO_ENABLED=1 go1.26.8 test -c -race -modfile="$S/racer.mod" -o "$S/racer.test" ./racer
 echo "setup ok"
